@@ -1,5 +1,174 @@
 (** C07 -- Vdata tables return exactly the records written, for any schema and access.
-    (placeholder while the model and proofs are being built) *)
-From Coq Require Import ZArith List Bool.
-Require Import H4.VTableSpec.
+    Property theorems only (each closed by [exact]); proofs in VSProofs.v / VSCodecProofs.v.
+
+    S = VTableSpec.v (table of records; read = projection; two buffer layouts).
+    M = VSModel.v (VSfdefine / VSsetfields / VSseek / VSwrite / VSread cases A-E with the transfer-buffer plan /
+        vpackvs / vunpackvs / VSfpack as the C code performs them, over the C06 specification of DFKconvert).
+
+    What is PROVED here, for ALL inputs:
+    (1) vs_pack_roundtrip (full): vunpackvs (vpackvs h) = h for every header within the 16/32-bit fields.
+    (2) vsfpack_inverse (full): unpacking what was packed returns the field buffers, any record count, any
+        set of non-overlapping selected fields.
+    (3) vs_counts_consistent (full): record count after VSwrite in M (max of old count and position / ivsize + n)
+        and in S (length of the table), the offsets VSsetfields stores, and S's read-after-write on tables.
+    (4) vsread_after_vswrite_partial: cases C/C (user and file FULL_INTERLACE, the chunked path) for one pass
+        through the transfer buffer: every schema, every record count, every field subset and permutation on
+        read; the bytes VSread delivers are the bytes VSwrite was given.  See the comment at the theorem for the
+        full statement and what is missing.
+    (5) gather_scatter_generic (full): the lemma every case reduces to -- any sequence of DFKconvert calls whose
+        destination cells do not overlap moves exactly the cells it names and nothing else.
+    (6) model_follows_source: the conversion-call / pointer-update skeleton of VSread and VSwrite and the field
+        order of the header codec in the CURRENT vrw.c / vio.c are the ones the model was written from. *)
+From Coq Require Import ZArith List Bool Lia.
+Require Import H4.gen.Gen_VS H4.VSModel H4.VTableSpec H4.VSProofs H4.VSCodecProofs.
 Import ListNotations.
+Local Open Scope Z_scope.
+
+(** (1) header codec *)
+Theorem vs_pack_roundtrip : forall h, hdr_ok h ->
+  m_vunpackvs (m_vpackvs h) =
+  Some (mkvh (h_interlace h) (h_nvertices h) (h_ivsize h) (map renorm (h_fields h)) (h_vsname h) (h_vsclass h)
+             (h_extag h) (h_exref h) (h_version h) (h_more h)).
+Proof. exact vs_pack_roundtrip_lemma. Qed.
+Print Assumptions vs_pack_roundtrip.
+
+(** (2) VSfpack *)
+Theorem vsfpack_inverse : forall n brs sel buf cols,
+  sel_ok brs sel -> length buf = (n * brs)%nat -> length cols = length sel ->
+  Forall2 (fun c os => length c = (n * Z.to_nat (snd os))%nat) cols sel ->
+  m_unpack n brs sel (m_pack n brs sel buf cols) = cols.
+Proof. exact vsfpack_inverse_lemma. Qed.
+Print Assumptions vsfpack_inverse.
+
+(** (3) counts *)
+Theorem vs_counts_consistent :
+  (forall w fil uil nelt vtb position nvert m vt r,
+      m_vswrite_mem w fil uil nelt vtb position nvert m vt = Some r ->
+      wr_nvert r = Z.max nvert (Z.quot position (wl_ivsize w) + nelt)) /\
+  (forall (t : table) pos new, (pos <= length t)%nat ->
+      length (put_rows t pos new) = Nat.max (length t) (pos + length new)) /\
+  (forall (t : table) pos new i d, (pos <= length t)%nat ->
+      nth i (put_rows t pos new) d =
+      if (i <? pos)%nat then nth i t d else if (i <? pos + length new)%nat then nth (i - pos) new d else nth i t d) /\
+  (forall (t : table) pos new fl full, (pos <= length t)%nat ->
+      read_buf full fl (put_rows t pos new) pos (length new) = layout full (length fl) (project fl new)) /\
+  (forall fl uj, 0 <= uj -> Forall (fun f => 0 <= w_isize f) fl -> uj + isum fl < 65536 ->
+      offs_ok uj (set_offsets uj fl)).
+Proof.
+  exact (conj vswrite_nvert (conj put_rows_length (conj put_rows_nth (conj project_rows_put_rows set_offsets_ok)))).
+Qed.
+Print Assumptions vs_counts_consistent.
+
+(** (4) read after write.
+    FULL statement of the property at model level (not yet proved in this generality):
+      for every well-formed write list fl (fld_ok, offs_ok), both file interlaces fil (with whole-table transfers
+      when fil = NO_INTERLACE), both user interlaces uw (write) and ur (read), every read list rl of distinct valid
+      indices, every nelt > 0, every transfer-buffer size before either call, and every caller buffer ubuf of
+      nelt * isum fl bytes:
+        m_vswrite w fil uw nelt vtb 0 nv ubuf = Some r ->
+        m_vsread w rl fil ur nelt vtb' (concat (wr_chunks r)) = Some (_, _, out) ->
+        out = read_buf (ur = FULL) rl' (parse (uw = FULL) sizes nelt ubuf) 0 nelt.
+    PROVED: the case uw = ur = fil = FULL_INTERLACE with more than one field (cases C/C), for one pass through
+    Vtbuf (one iteration of the while loops of VSwrite / VSread, any chunk size n), cell by cell: the byte at
+    (record i, selected field f, component j, byte b) of the buffer VSread fills is the byte at (record i, field f,
+    component j, byte b) of the buffer VSwrite was given -- for every schema, subset and permutation.
+    MISSING: (a) induction over the chunk lists of [wr_ec_chunks] / [rd_ec_chunks] (the passes use disjoint record
+    ranges; needs the frame clauses of [wr_c_spec] / [rd_c_spec], which are proved); (b) the same reduction to
+    [run_comps_spec] for [wr_a_fields], [wr_b_fields], [wr_d_fields], [rd_a_fields], [rd_b_fields], [rd_d_fields]
+    (field-major layouts: blocks of common stride) and the single conversion of case E; for case D this needs the
+    hypothesis isize = esize, which [fld_ok] carries; (c) the list-level link from cells to [read_buf] / [parse]
+    (nth of concat of equal-size blocks).  The correspondence check compares R with S on all of these. *)
+Theorem vsread_after_vswrite_partial : forall fl rl n mu vtW mw mr0 vtR mr,
+  Forall fld_ok fl -> offs_ok 0 fl -> rl_ok fl rl -> 0 < n ->
+  n * isum fl <= vtW -> n * rsum fl rl <= vtR ->
+  wr_ec_fields fl mu vtW 0 0 n (isum fl) (isum fl) = Some mw ->
+  rd_c_fields fl rl (load mr0 vtR (mem_slice mw vtW (isum fl * n))) vtR 0 0 n (isum fl) (rsum fl rl) = Some mr ->
+  forall f eo uo, In (f, eo) (foffs 0 fl) -> In (f, uo) (roffs fl rl 0) ->
+  forall j i b, 0 <= j < w_order f -> 0 <= i < n -> 0 <= b < fw f ->
+    mr (uo + j * fw f + i * rsum fl rl + b) = mu (eo + j * fw f + i * isum fl + b).
+Proof. exact rw_c_pass. Qed.
+Print Assumptions vsread_after_vswrite_partial.
+
+(** the two halves separately, with existence of the results and the frame (nothing else is touched) *)
+Theorem vswrite_pass_fills_records : forall fl m vt P n isz hs,
+  Forall fld_ok fl -> offs_ok 0 fl -> isum fl <= isz -> isum fl <= hs -> 0 < n ->
+  (P + n * isz <= vt \/ vt + n * hs <= P) ->
+  exists m', wr_ec_fields fl m vt P 0 n isz hs = Some m' /\
+    (forall f eo, In (f, eo) (foffs 0 fl) -> forall j i b, 0 <= j < w_order f -> 0 <= i < n -> 0 <= b < fw f ->
+       m' (vt + w_off f + j * fw f + i * hs + b) =
+       m (P + eo + j * fw f + i * isz + ConvModel.perm (fw f) (swap_of (w_type f) (fw f)) b)) /\
+    (forall a, (a < vt \/ vt + n * hs <= a) -> m' a = m a).
+Proof. exact wr_c_spec. Qed.
+Print Assumptions vswrite_pass_fills_records.
+
+Theorem vsread_pass_projects : forall fl rl m vt P n hs uv,
+  Forall fld_ok fl -> offs_ok 0 fl -> rl_ok fl rl -> rsum fl rl <= uv -> isum fl <= hs -> 0 < n ->
+  (vt + n * hs <= P \/ P + n * uv <= vt) ->
+  exists m', rd_c_fields fl rl m vt P 0 n hs uv = Some m' /\
+    (forall f uo, In (f, uo) (roffs fl rl 0) -> forall j i b, 0 <= j < w_order f -> 0 <= i < n -> 0 <= b < fw f ->
+       m' (P + uo + j * fw f + i * uv + b) =
+       m (vt + w_off f + j * fw f + i * hs + ConvModel.perm (fw f) (swap_of (w_type f) (fw f)) b)) /\
+    (forall a, (a < P \/ P + n * uv <= a) -> m' a = m a).
+Proof. exact rd_c_spec. Qed.
+Print Assumptions vsread_pass_projects.
+
+(** (5) the generic gather / scatter lemma *)
+Theorem gather_scatter_generic : forall cs m n slo shi dlo dhi,
+  0 < n -> (shi <= dlo \/ dhi <= slo) ->
+  Forall (comp_ok n slo shi dlo dhi) cs -> no_overlap n cs ->
+  exists m', run_comps m cs n = Some m' /\
+    (forall c, In c cs -> forall i b, 0 <= i < n -> 0 <= b < kw c ->
+        m' (k_q c + i * k_sq c + b) = m (k_p c + i * k_sp c + ConvModel.perm (kw c) (swap_of (k_nt c) (kw c)) b)) /\
+    (forall a, (forall c, In c cs -> ~ dst_cell c n a) -> m' a = m a).
+Proof. exact run_comps_spec. Qed.
+Print Assumptions gather_scatter_generic.
+
+(** (6) the model follows the current source *)
+Theorem model_follows_source :
+  VSwrite_skeleton = VSwrite_skeleton_modelled /\ VSread_skeleton = VSread_skeleton_modelled /\
+  vpackvs_order = vpackvs_order_modelled /\ vunpackvs_order = vunpackvs_order_modelled.
+Proof. exact model_follows_source_lemma. Qed.
+Print Assumptions model_follows_source.
+
+(** Non-vacuity: concrete, non-trivial states meeting the hypotheses *)
+Definition ex_fl : list wfield :=
+  [mkwf [65] DFNT_INT32 4 4 1 0; mkwf [66] DFNT_INT16 4 4 2 4; mkwf [67] (Z.lor DFNT_LITEND DFNT_FLOAT64) 8 8 1 8].
+Example ex_fl_ok : Forall fld_ok ex_fl /\ offs_ok 0 ex_fl /\ rl_ok ex_fl [2; 0] /\ isum ex_fl = 16 /\ rsum ex_fl [2; 0] = 12.
+Proof.
+  split; [|split; [|split; [|split]]]; try (vm_compute; tauto).
+  - repeat constructor; [exists 4|exists 2|exists 8]; vm_compute; intuition discriminate.
+  - repeat constructor; eexists; vm_compute; reflexivity.
+Qed.
+(** the model run on a 2-record buffer: 16-byte records in, fields C and A out, in both user interlaces *)
+Example ex_write_read :
+  let w := mkwl ex_fl 16 in
+  let ubuf := map Z.of_nat (seq 1 32) in
+  match m_vswrite w FULL_INTERLACE FULL_INTERLACE 2 0 0 0 ubuf with
+  | Some r => wr_nvert r = 2 /\ wr_vtb r = 48 /\
+              concat (wr_chunks r) = [4;3;2;1; 6;5;8;7; 9;10;11;12;13;14;15;16; 20;19;18;17; 22;21;24;23; 25;26;27;28;29;30;31;32] /\
+              m_vsread w [2; 0] FULL_INTERLACE FULL_INTERLACE 2 48 (concat (wr_chunks r)) =
+                Some (48, [32], [9;10;11;12;13;14;15;16; 1;2;3;4; 25;26;27;28;29;30;31;32; 17;18;19;20]) /\
+              m_vsread w [2; 0] FULL_INTERLACE NO_INTERLACE 2 48 (concat (wr_chunks r)) =
+                Some (48, [32], [9;10;11;12;13;14;15;16; 25;26;27;28;29;30;31;32; 1;2;3;4; 17;18;19;20])
+  | None => False
+  end.
+Proof. vm_compute. repeat split. Qed.
+(** ... and the specification says the same *)
+Example ex_spec_agrees :
+  let sz := [4; 4; 8]%nat in
+  let ubuf := map Z.of_nat (seq 1 32) in
+  read_buf true [2; 0]%nat (put_rows [] 0 (parse true sz 2 ubuf)) 0 2 =
+    [9;10;11;12;13;14;15;16; 1;2;3;4; 25;26;27;28;29;30;31;32; 17;18;19;20] /\
+  read_buf false [2; 0]%nat (put_rows [] 0 (parse true sz 2 ubuf)) 0 2 =
+    [9;10;11;12;13;14;15;16; 25;26;27;28;29;30;31;32; 1;2;3;4; 17;18;19;20].
+Proof. vm_compute. split; reflexivity. Qed.
+Example ex_hdr_ok : hdr_ok (mkvh 0 2 16 ex_fl [86] [] 0 0 VSET_VERSION 0).
+Proof.
+  unfold hdr_ok, ex_fl. cbn.
+  repeat split; try (vm_compute; intuition discriminate); try lia;
+  repeat constructor; cbn; try lia; try (vm_compute; intuition discriminate).
+Qed.
+Example ex_sel_ok : sel_ok 6 [(0, 2); (2, 4)].
+Proof. exact sel_ok_two_fields. Qed.
+Example ex_comps_nonempty : length (wr_c_comps ex_fl 100 0 0 16 16) = 4%nat /\ length (rd_c_comps ex_fl [2; 0] 100 0 0 16 12) = 2%nat.
+Proof. vm_compute. split; reflexivity. Qed.
